@@ -225,6 +225,11 @@ def na_case(draw, tier="quick"):
     else:
         k, vals = draw(V.column(kinds=FILL_KINDS, max_size=6))
     fills = draw(st.lists(st.one_of(V.SCALARS[k] if k != "object" else V.any_scalar, V.any_scalar, st.none()), min_size=2, max_size=4))
+    if k == "float" and vals and draw(st.booleans()):
+        # NaN and infinities are values like any other: isna/dropna/fillna treat only None as missing
+        pos = draw(st.integers(0, len(vals) - 1))
+        vals = list(vals)
+        vals[pos] = draw(st.sampled_from([math.nan, math.inf, -math.inf]))
     return {"k": k, "vals": vals, "fills": fills}
 
 
@@ -248,7 +253,10 @@ def _widened(o, g):
     """g is o after a documented widening (bool->int->float->complex, date->datetime at midnight)"""
     from datetime import datetime
     if type(o) in NUM and type(g) in NUM and NUM.index(type(g)) > NUM.index(type(o)):
-        return g == o
+        try:
+            return same(type(g)(o), g)          # (nan-aware)
+        except Exception:  # noqa: BLE001
+            return False
     if type(o) is date and type(g) is datetime:
         return g == datetime.combine(o, datetime.min.time())
     return False
